@@ -297,7 +297,7 @@ Proof.
   apply parse_items_flatten in Hp. subst fresh'.
   destruct (user_ok_blocks u Hu) as [Huo HT].
   unfold regen1.
-  rewrite (regen_evolution String.eqb eqb_spec_str tab4 is_tag kof sub_of kpfx vis nl nl (nl path) (nl lost_sep)
+  rewrite (regen_evolution String.eqb eqb_spec_str tab4 is_tag kof sub_of kpfx vis nl nl (nl (basename path)) (nl lost_sep)
              (fun k => map tab4 (u k)) its its' "" (wfb_wf its Hwf) Huo Hwf' HT).
   simpl fst. unfold on_disk. f_equal. apply written_ext. intros k _.
   destruct (memk String.eqb k (pair_keys kof its)); reflexivity.
@@ -314,7 +314,7 @@ Proof.
   rewrite (read_on_disk u its Hl Hu).
   destruct (user_ok_blocks u Hu) as [Huo HT].
   unfold regen1.
-  rewrite (regen_fixed_point String.eqb eqb_spec_str tab4 is_tag kof sub_of kpfx vis nl nl (nl path) (nl lost_sep)
+  rewrite (regen_fixed_point String.eqb eqb_spec_str tab4 is_tag kof sub_of kpfx vis nl nl (nl (basename path)) (nl lost_sep)
              (fun k => map tab4 (u k)) its "" (wfb_wf its Hwf) Huo HT).
   reflexivity.
 Qed.
